@@ -27,11 +27,13 @@ CHECKS = {
 CHECKS['C18'] = dict(engine='aio-sim', level='exploration', technique='deterministic simulation: scripted TAP producer processes on the virtual-time loop; byte stream chunked/delayed/cut at arbitrary offsets (crash, kill, timeout), exit status delivered independently; delivered prefix checked line by line against an independent TAP reference interpreter, streamed run vs direct parse for chunking invariance, verdict folded with exit status',
    text='Seeded search over producer behaviours (what is written, how it is chunked, where the stream is cut, how the process ends). The line grammar itself is a function of its input; what the simulation adds and decides is the stream surface named in the statement: truncated streams (unterminated YAML, missing plan, partial last line), exit status arriving independently of the stream, and chunk/timing invariance of the derived events.',
    note='Trusted: models/tap_ref.py (hand-written from the TAP 12/13 documents; undecided forms are marked and nothing is demanded on them); simulator pipe model. Real code: read_decode, TAPParser, TestRunTAP, loggers, asyncio StreamReader.', ref='DESIGN §3 C18')
+CHECKS['C09'] = dict(engine='crash-shim', level='fault_enumeration', technique='fault injection by enumeration of crash points: the real command runs under an LD_PRELOAD interposer that numbers every file-system mutation and SIGKILLs the process before call k (and mid-write for torn writes); every k of each command is visited on seeded build-directory histories, then the documented recovery is run and option values are compared with the pre/post states',
+   text='Per (history, command) the set of kill points is enumerated completely in the thorough tier (all n mutation points, plus torn variants of data writes); histories, projects and commands are sampled by seed. Quick visits every point that touches a state file or is a rename/unlink/rmdir plus a seeded sample of the rest.',
+   note='Trusted: the interposer sees every mutating libc call of the main process (open*/write*/rename*/unlink*/mkdir*/rmdir/fsync/truncate/link/symlink/chmod/utimensat/sendfile/copy_file_range); process-kill crash model (completed calls persist). Recovery, read-back and the command itself are real code of the tree.', ref='DESIGN §3 C09')
 PENDING = {
  'C05': 'claimed in DESIGN §3 (ninja-sim schedules + hermetic replay) - check not built yet in this revision',
  'C06': 'claimed in DESIGN §3 (nondeterminism seams) - check not built yet in this revision',
  'C08': 'claimed in DESIGN §3 (lifecycle histories vs options model) - check not built yet in this revision',
- 'C09': 'claimed in DESIGN §3 (kill at every mutation point) - check not built yet in this revision',
  'C10': 'claimed in DESIGN §3 (fake network + fallback policy model) - check not built yet in this revision',
  'C11': 'claimed in DESIGN §3 (audit-hook FS monitor, install histories) - check not built yet in this revision',
 }
@@ -41,6 +43,7 @@ m = {
  'hooks': {'guard': 'MESON_VERIF_SIM', 'enable': 'no hook exists in /repo: every seam is reached from outside (event-loop policy, attribute patching in forked children, PATH, LD_PRELOAD, audit hooks); the guard name is reserved and unused',
            'baseline_off_cmd': PIN, 'source_commits': [], 'add_only': True},
  'engines': [
+   {'name': 'crash-shim', 'path': 'sim/crash', 'serves_properties': ['C09'], 'kind_free_text': 'LD_PRELOAD interposer (C) numbering file-system mutations of the main process and killing it at point k; forked-child recovery runs'},
    {'name': 'aio-sim', 'path': 'sim/aio', 'serves_properties': ['C12', 'C18'], 'kind_free_text': 'virtual-time asyncio event loop + scripted child processes/pipes/signals; real asyncio stream + subprocess protocol stack on top'},
  ],
  'checks': [],
